@@ -81,6 +81,7 @@ typedef struct sim_state {
 	uint32_t  pct_low;
 	uint64_t  budget;
 	uint64_t  step_ns;
+	uint64_t  spin_real_steps;   /* spinners really spin (no clock jump) while the next event is at most this many steps away */
 	uint64_t  step;
 	uint64_t  ndecision;
 	int       consec;
